@@ -16,6 +16,6 @@ OBLIGATIONS = OBLIGATIONS + [K.PROCESS_DATA]
 # the zoom tiling loops: the span end must not overflow u32 (D19: panic / hang near u32::MAX) and the cursor must advance
 OBLIGATIONS = OBLIGATIONS + [K.WIG_TILING, K.BED_TILING]
 # type-resolved rules over the MIR facts (tools/bt-mir)
-OBLIGATIONS = OBLIGATIONS + [K.MIR_COORD_ARITH, K.MIR_INPUT_UNWRAPS, K.MIR_RESULTS]
+OBLIGATIONS = OBLIGATIONS + [K.MIR_COORD_ARITH, K.MIR_DIVISION, K.MIR_INPUT_UNWRAPS, K.MIR_RESULTS]
 OBLIGATIONS = OBLIGATIONS + [K.EMPTY_AND_TOOL_REFUSALS]
 OBLIGATIONS = OBLIGATIONS + [K.NODE_COUNTS]
